@@ -58,6 +58,10 @@ def handle (inp out : Sexp) : CaseResult :=
       (if is.any (fun i => !i.isGate && i.supported && i.qubits.length == 1) then ["measure"] else []) ++
       (if is.any (fun i => !i.isGate && i.supported && i.qubits.isEmpty) then ["classical"] else []) ++
       (if is.any (fun i => i.qubits.eraseDups.length != i.qubits.length) then ["repeated-qubit"] else [])
+    -- an empty program has no basic block: the public API cannot build the empty graph
+    if is.isEmpty && out == .list [.atom "noblock"] then
+      { agree := true, specOk := true, nontrivial := false, tags := ["empty-noblock"] }
+    else
     match build is with
     | none =>
       let ok := match out with | .list [.atom "err"] => true | _ => false
